@@ -3,6 +3,9 @@
 //!   parts <Type> w...     push an estimator built with the hook constructor from raw 64-bit words (hex)
 //!   add a [b]             add an observation (hex f64 words) to the top of the stack
 //!   merge                 pop b, pop a, a.merge(&b), push a
+//!   collect_val <Type> a [b] ...   push <Type> collected from an iterator of values (pairs for pair estimators)
+//!   collect_ref <Type> a [b] ...   same from an iterator of references
+//!   extend_val a [b] ... / extend_ref a [b] ...   extend the top of the stack
 //!   dump                  print `parts=...` and every accessor of the top as name=hexbits
 use average::{Covariance, Estimate, Kurtosis, Mean, Merge, Quantile, Skewness, Variance, WeightedMean, WeightedMeanWithError};
 use avk::types::{M10, M4, M5, M6, M8};
@@ -10,6 +13,8 @@ use std::any::Any;
 
 pub trait Est: Any {
     fn add2(&mut self, a: f64, b: f64);
+    /// extend from values / references (pairs use both components)
+    fn extend2(&mut self, items: &[(f64, f64)], by_ref: bool);
     fn merge_dyn(&mut self, other: &dyn Any);
     fn dump(&self) -> Vec<(String, f64)>;
     fn parts(&self) -> Vec<u64>;
@@ -23,6 +28,10 @@ macro_rules! moment_family {
     ($T:ty, $from:expr, $parts:expr, [$($acc:ident),*]) => {
         impl Est for $T {
             fn add2(&mut self, a: f64, _b: f64) { self.add(a); }
+            fn extend2(&mut self, items: &[(f64, f64)], by_ref: bool) {
+                let xs: Vec<f64> = items.iter().map(|p| p.0).collect();
+                if by_ref { self.extend(xs.iter()); } else { self.extend(xs.iter().copied()); }
+            }
             fn merge_dyn(&mut self, other: &dyn Any) { self.merge(other.downcast_ref::<$T>().expect("same type")); }
             fn dump(&self) -> Vec<(String, f64)> {
                 vec![("len".to_string(), self.len() as f64), $((stringify!($acc).to_string(), self.$acc())),*]
@@ -45,6 +54,10 @@ macro_rules! moments_n {
     ($T:ty, $N:expr) => {
         impl Est for $T {
             fn add2(&mut self, a: f64, _b: f64) { self.add(a); }
+            fn extend2(&mut self, items: &[(f64, f64)], by_ref: bool) {
+                let xs: Vec<f64> = items.iter().map(|p| p.0).collect();
+                if by_ref { self.extend(xs.iter()); } else { self.extend(xs.iter().copied()); }
+            }
             fn merge_dyn(&mut self, other: &dyn Any) { self.merge(other.downcast_ref::<$T>().expect("same type")); }
             fn dump(&self) -> Vec<(String, f64)> {
                 let mut v = vec![("len".to_string(), self.len() as f64), ("mean".to_string(), self.mean()),
@@ -70,6 +83,9 @@ moments_n!(M10, 10);
 
 impl Est for WeightedMean {
     fn add2(&mut self, a: f64, w: f64) { self.add(a, w); }
+    fn extend2(&mut self, items: &[(f64, f64)], by_ref: bool) {
+        if by_ref { self.extend(items.iter()); } else { self.extend(items.iter().copied()); }
+    }
     fn merge_dyn(&mut self, other: &dyn Any) { self.merge(other.downcast_ref::<WeightedMean>().expect("same type")); }
     fn dump(&self) -> Vec<(String, f64)> { vec![("mean".into(), self.mean()), ("sum_weights".into(), self.sum_weights())] }
     fn parts(&self) -> Vec<u64> { let p = self.__verif_parts(); vec![b(p.0), b(p.1)] }
@@ -77,6 +93,9 @@ impl Est for WeightedMean {
 }
 impl Est for WeightedMeanWithError {
     fn add2(&mut self, a: f64, w: f64) { self.add(a, w); }
+    fn extend2(&mut self, items: &[(f64, f64)], by_ref: bool) {
+        if by_ref { self.extend(items.iter()); } else { self.extend(items.iter().copied()); }
+    }
     fn merge_dyn(&mut self, other: &dyn Any) { self.merge(other.downcast_ref::<WeightedMeanWithError>().expect("same type")); }
     fn dump(&self) -> Vec<(String, f64)> {
         vec![("len".into(), self.len() as f64), ("weighted_mean".into(), self.weighted_mean()), ("unweighted_mean".into(), self.unweighted_mean()),
@@ -89,6 +108,9 @@ impl Est for WeightedMeanWithError {
 }
 impl Est for Covariance {
     fn add2(&mut self, a: f64, y: f64) { self.add(a, y); }
+    fn extend2(&mut self, items: &[(f64, f64)], by_ref: bool) {
+        if by_ref { self.extend(items.iter()); } else { self.extend(items.iter().copied()); }
+    }
     fn merge_dyn(&mut self, other: &dyn Any) { self.merge(other.downcast_ref::<Covariance>().expect("same type")); }
     fn dump(&self) -> Vec<(String, f64)> {
         vec![("len".into(), self.len() as f64), ("mean_x".into(), self.mean_x()), ("mean_y".into(), self.mean_y()),
@@ -102,6 +124,7 @@ impl Est for Covariance {
 }
 impl Est for Quantile {
     fn add2(&mut self, a: f64, _w: f64) { self.add(a); }
+    fn extend2(&mut self, items: &[(f64, f64)], _by_ref: bool) { for p in items { self.add(p.0); } }
     fn merge_dyn(&mut self, _other: &dyn Any) { panic!("Quantile has no merge"); }
     fn dump(&self) -> Vec<(String, f64)> { vec![("len".into(), self.len() as f64), ("quantile".into(), self.quantile()), ("p".into(), self.p())] }
     fn parts(&self) -> Vec<u64> {
@@ -164,23 +187,61 @@ fn make_parts(ty: &str, w: &[u64]) -> Box<dyn Est> {
     }
 }
 
+fn is_pair(ty: &str) -> bool { matches!(ty, "WeightedMean" | "WeightedMeanWithError" | "Covariance") }
+
+fn items(words: &[&str], pair: bool) -> Vec<(f64, f64)> {
+    let v: Vec<f64> = words.iter().map(|w| f(hex(w))).collect();
+    if pair { v.chunks(2).map(|c| (c[0], c[1])).collect() } else { v.iter().map(|x| (*x, 0.0)).collect() }
+}
+
+fn collect(ty: &str, it: &[(f64, f64)], by_ref: bool) -> Box<dyn Est> {
+    let xs: Vec<f64> = it.iter().map(|p| p.0).collect();
+    macro_rules! single { ($T:ty) => { if by_ref { Box::new(xs.iter().collect::<$T>()) } else { Box::new(xs.iter().copied().collect::<$T>()) } }; }
+    macro_rules! pair { ($T:ty) => { if by_ref { Box::new(it.iter().collect::<$T>()) } else { Box::new(it.iter().copied().collect::<$T>()) } }; }
+    match ty {
+        "Mean" => single!(Mean),
+        "Variance" => single!(Variance),
+        "Skewness" => single!(Skewness),
+        "Kurtosis" => single!(Kurtosis),
+        "Moments4" => single!(M4),
+        "M5" => single!(M5),
+        "M6" => single!(M6),
+        "WeightedMean" => pair!(WeightedMean),
+        "WeightedMeanWithError" => pair!(WeightedMeanWithError),
+        "Covariance" => pair!(Covariance),
+        _ => panic!("collect: unknown type {}", ty),
+    }
+}
+
 fn hex(s: &str) -> u64 { u64::from_str_radix(s.trim_start_matches("0x"), 16).expect("hex word") }
 
 pub fn run(path: &str) {
     let text = std::fs::read_to_string(path).expect("read scenario");
     let mut stack: Vec<Box<dyn Est>> = Vec::new();
+    let mut types: Vec<String> = Vec::new();
     for line in text.lines() {
         let t: Vec<&str> = line.split_whitespace().collect();
         if t.is_empty() || t[0].starts_with('#') { continue; }
         match t[0] {
-            "new" => stack.push(make_new(t[1], t.get(2).map(|s| f(hex(s))))),
-            "parts" => { let w: Vec<u64> = t[2..].iter().map(|s| hex(s)).collect(); stack.push(make_parts(t[1], &w)); }
+            "new" => { stack.push(make_new(t[1], t.get(2).map(|s| f(hex(s))))); types.push(t[1].to_string()); }
+            "parts" => { let w: Vec<u64> = t[2..].iter().map(|s| hex(s)).collect(); stack.push(make_parts(t[1], &w)); types.push(t[1].to_string()); }
             "add" => {
                 let a = f(hex(t[1]));
                 let bb = t.get(2).map(|s| f(hex(s))).unwrap_or(0.0);
                 stack.last_mut().expect("stack").add2(a, bb);
             }
+            "collect_val" | "collect_ref" => {
+                let it = items(&t[2..], is_pair(t[1]));
+                stack.push(collect(t[1], &it, t[0] == "collect_ref"));
+                types.push(t[1].to_string());
+            }
+            "extend_val" | "extend_ref" => {
+                let pair = is_pair(types.last().expect("stack"));
+                let it = items(&t[1..], pair);
+                stack.last_mut().expect("stack").extend2(&it, t[0] == "extend_ref");
+            }
             "merge" => {
+                types.pop();
                 let bb = stack.pop().expect("stack");
                 let a = stack.last_mut().expect("stack");
                 a.merge_dyn(bb.as_any());
